@@ -121,7 +121,7 @@ class Verifier:
     def verify(self, c, override_source=None):
         """Return list of Obligation for contract c."""
         t0 = time.time()
-        base = f'pyvc:{c.target}'
+        base = f'pyvc:{getattr(c, "key", c.target)}'
         text, path = load_source(c, self.repo, override_source)
         if text is None:
             return [Obligation(f'{base}/extract', c.props[0], 'pyvc', LOST,
@@ -148,6 +148,17 @@ class Verifier:
                                       functions=[f'{c.target}#{fhash}'], text=text_)
             return obs[oid]
 
+        if c.custom is not None:
+            try:
+                out = c.custom(self, c, fdef, consts, tree)
+            except Unsupported as e:
+                return [Obligation(f'{base}/subset', c.props[0], 'pyvc', LOST,
+                                   detail=f'outside the verified subset: {e}',
+                                   functions=[f'{c.target}#{fhash}'])]
+            for o in out:
+                if not o.functions:
+                    o.functions = [f'{c.target}#{fhash}']
+            return out
         names = list(c.cases)
         combos = list(itertools.product(*[c.cases[n] for n in names])) or [()]
         cover_ok = False
@@ -155,7 +166,10 @@ class Verifier:
         try:
             for combo in combos:
                 case = dict(zip(names, combo))
-                r = self._verify_case(c, fdef, consts, case, ob)
+                if c.stmt:
+                    r = self._verify_stmt(c, fdef, consts, case, ob)
+                else:
+                    r = self._verify_case(c, fdef, consts, case, ob)
                 cover_ok = cover_ok or r[0]
                 normal_paths += r[1]
         except Unsupported as e:
@@ -265,6 +279,59 @@ class Verifier:
                 hyps = pst.hyps() + est.facts[len(pst.facts):]
                 for lab2, h2, f2 in est.checks:
                     pass
+                self._discharge(o, hyps, g, inputs, f'{label} [{case_tag}]', c, case)
+        return (True, normal)
+
+    def _verify_stmt(self, c, fdef, consts, case, ob):
+        """Statement contract: the value assigned to `c.stmt` inside the real function, with its
+        free variables typed by c.params, satisfies the ensures (over `value`)."""
+        node = None
+        for n in ast.walk(fdef):
+            if isinstance(n, ast.Assign) and len(n.targets) == 1 and \
+                    isinstance(n.targets[0], ast.Name) and n.targets[0].id == c.stmt:
+                node = n
+                break
+        if node is None:
+            raise Unsupported(f'assignment to {c.stmt} not found')
+        st = State()
+        ex = Executor(self.reg, consts)
+        ex.cur_class = c.cls
+        inputs = []
+        for name, spec in c.params.items():
+            v = case[name] if name in case else make_symbolic(spec, name, self.reg, st)
+            st.env[name] = v
+            leaves(name, v, inputs)
+        free = {x.id for x in ast.walk(node.value) if isinstance(x, ast.Name)}
+        for nm in free:
+            if nm not in st.env and nm not in consts and nm not in ('np', 'math', 'u', 'True',
+                                                                     'False', 'None'):
+                raise Unsupported(f'free variable {nm} of the statement has no type in the '
+                                  'contract')
+        env0 = dict(st.env)
+        for r in c.requires:
+            st.assume(ex.eval_cl(r, st))
+        res, _, _ = solve.check(st.hyps(), timeout_s=self.timeout_s)
+        if res != 'sat':
+            return (False, 0)
+        normal = 0
+        case_tag = ','.join(f'{k}={v!r}' for k, v in case.items())
+        for s2, v in ex.eval(node.value, st):
+            if isinstance(s2, tuple):
+                continue
+            normal += 1
+            for label, hyps, f in s2.checks:
+                o = ob('safety', 'in-body obligations: callee preconditions, index bounds')
+                self._discharge(o, hyps, f, inputs, f'{label} [{case_tag}]', c, case)
+            for label, text in c.ensures:
+                o = ob(f'ensures:{label}', f'at `{c.stmt} = {ast.unparse(node.value)}`: {text}')
+                est = State(dict(env0))
+                est.env['value'] = v
+                est.facts, est.pc = list(s2.facts), list(s2.pc)
+                gex = Executor(self.reg, consts)
+                gex.goal_mode = True
+                gex.cur_class = c.cls
+                g = gex.eval_cl(text, est)
+                hyps = s2.hyps() + est.facts[len(s2.facts):]
                 self._discharge(o, hyps, g, inputs, f'{label} [{case_tag}]', c, case)
         return (True, normal)
 
